@@ -41,8 +41,8 @@ ASSUMPTIONS = ["the dump writes 14 significant digits; follow-up results are com
                "the C++ shims only call public members (phreeqc2cxxStorageBin, cxxStorageBin2phreeqc, Serializer, Phreeqc copy "
                "constructor, the entity maps' dump_raw)",
                "excluded by construction, each a recorded finding with a replay under replays/C10/known: SOLUTION -isotope "
-               "entries, 'viscosity calc' of a Donnan layer, surfaces tied to a kinetic reactant, a tied phase that can be "
-               "exhausted, the Phreeqc copy of a pitzer.dat/sit.dat engine, -viscos_0 in the Serializer text comparison"]
+               "entries, 'viscosity calc' of a Donnan layer, a tied phase that can be exhausted (Donnan surface with 0 kg water -> "
+               "nan in the dump), the Phreeqc copy of a pitzer.dat/sit.dat engine, -viscos_0 in the Serializer text comparison"]
 TECHNIQUE = "property-based testing (Hypothesis): round-trip / differential oracle over dump text and follow-up selected output"
 LEVEL_TEXT = ("Exploration: generated reaction states of every entity kind are dumped, restored through six routes and re-dumped; "
               "reading must be error-free, the second dump a fixed point and field-equal to the first, in-memory copies "
